@@ -372,10 +372,39 @@ pub fn run(ctx: &Ctx) -> Report {
         eval(acc, &p3[i].1, &p3[i].0, "P3");
     });
     acc.into_report(&mut rep, "P3_run_insertion_and_rotation");
+    // P4: every reachable (length, length, edit distance) triple: a common part of c >= 7 symbols and two tails that
+    // share nothing (so LCS = c exactly), for ALL 7 <= l1, l2 <= 64 and ALL 7 <= c <= min(l1, l2)
+    let acc = par_shards(58 * 58, |i, acc| {
+        let (l1, l2) = (7 + i / 58, 7 + i % 58);
+        for c in 7..=l1.min(l2) {
+            let common: Vec<u8> = (0..c).map(|k| (2 + (k * 7 + c) % 60) as u8).collect();
+            let tail_a: Vec<u8> = (0..l1 - c).map(|k| (k % 2) as u8).collect();
+            let tail_b: Vec<u8> = (0..l2 - c).map(|k| 62 + (k % 2) as u8).collect();
+            // the common part first (even c) or last (odd c)
+            let (x, y): (Vec<u8>, Vec<u8>) = if c % 2 == 0 {
+                ([common.clone(), tail_a].concat(), [common.clone(), tail_b].concat())
+            } else {
+                ([tail_a, common.clone()].concat(), [tail_b, common.clone()].concat())
+            };
+            if !refmodel::is_normalized(&x) || !refmodel::is_normalized(&y) {
+                continue;
+            }
+            let log = if (l1 + l2 + c) % 3 == 0 { 4u8 } else { 10 };
+            eval(acc, &(log, x.clone(), vec![]), &(log, y.clone(), vec![]), "P4");
+            if (l1 + c) % 4 == 0 && y.len() <= 64 {
+                // crossing: a.bh2 ~ b.bh1 one size apart
+                eval(acc, &(log, vec![], x.clone()), &(log + 1, y.clone(), vec![]), "P4-cross");
+            }
+            if l1 == 41 && l2 == 41 && c == 25 {
+                acc.sample(json!({"a": cj(&(log, x.clone(), vec![])), "b": cj(&(log, y.clone(), vec![]))}));
+            }
+        }
+    });
+    acc.into_report(&mut rep, "P4_every_length_length_distance_triple");
     rep.set("exhaustive", true);
     rep.set(
         "rule",
-        "P1: all 31x31 block-size pairs x 24 content templates (identical; identical only after normalisation; similar in one block hash; crossed a.bh2~b.bh1 and the mirror; no common 7-gram; lengths < 7; empty; block hash 2 longer than 32; capacity lengths); P2: relation in {eq, lt, gt} x log in {0..5, 29, 30} x base strings of length {7,8,31,32,33,63,64} against EVERY single edit (insert / replace with 3 symbols / delete at every position) and strided double edits, in the block hash 1 and block hash 2 positions; P3: run insertion and rotations.  Every pair is evaluated through up to 19 entry points (string function with raw / normalised / mixed spellings, FuzzyHash / LongFuzzyHash compare and compare_unequal, reusable target initialised by init_from (dirty) / From from short, long, dual operands, compare_near_eq / compare_unequal*), all of which must equal the oracle (DP edit distance + naive 7-gram scan + the ssdeep formula and cap).",
+        "P4: ALL (l1, l2, c) with 7 <= l1, l2 <= 64 and 7 <= c <= min(l1, l2): two block hashes of lengths l1 and l2 whose longest common subsequence is exactly the shared part of c symbols (tails over disjoint symbols), i.e. every reachable (length, length, edit distance) triple of the score formula, at equal block sizes (and a quarter of them crossing sizes).  P1: all 31x31 block-size pairs x 24 content templates (identical; identical only after normalisation; similar in one block hash; crossed a.bh2~b.bh1 and the mirror; no common 7-gram; lengths < 7; empty; block hash 2 longer than 32; capacity lengths); P2: relation in {eq, lt, gt} x log in {0..5, 29, 30} x base strings of length {7,8,31,32,33,63,64} against EVERY single edit (insert / replace with 3 symbols / delete at every position) and strided double edits, in the block hash 1 and block hash 2 positions; P3: run insertion and rotations.  Every pair is evaluated through up to 19 entry points (string function with raw / normalised / mixed spellings, FuzzyHash / LongFuzzyHash compare and compare_unequal, reusable target initialised by init_from (dirty) / From from short, long, dual operands, compare_near_eq / compare_unequal*), all of which must equal the oracle (DP edit distance + naive 7-gram scan + the ssdeep formula and cap).",
     );
     rep
 }
